@@ -10,3 +10,24 @@ claim("C20",
       "trusts: each reader's own detect() as the per-format acceptance predicate (that is how "
       "the property is stated); the documented order hard-coded in vf/props/c20.py",
       "DESIGN.md 3/C20")
+claim("C18",
+      "exhaustive pair sweep over value pools + exhaustive string sweep against a hand-written "
+      "size recogniser + Hypothesis values (immutability snapshots, print/re-parse round trip)",
+      "Generated-input search with explicit oracles: component-wise reference equality vs ==/hash "
+      "for all pairs in pools exhaustive in units/alignments/None-ness (76k pairs) and random "
+      "one-component mutations; all 54k (thorough 814k) strings over the 15-symbol alphabet vs a "
+      "hand-written recogniser; structural snapshot of the receiver around as_percentage_of / "
+      "fit_to_screen; two-decimal printing tolerance and print/parse fixpoint; TTML padding "
+      "shorthand order.",
+      "trusts the hand-written recogniser and the reference canonical form in vf/props/c18.py; "
+      "ASCII digits and non-negative finite magnitudes only",
+      "DESIGN.md 3/C18")
+claim("C19",
+      "Hypothesis caption sets with generated runs; exact Fraction model of t*skew+offset and "
+      "reference run-merge; idempotence (metamorphic)",
+      "Generated-input search: 10k (thorough 400k) sets per operation with runs of equal "
+      "timespans at every position, skews k/64 compared exactly and float skews with 1e-3 us "
+      "tolerance, offsets aimed at the 'new start == 0' boundary; survivors, order, node lists "
+      "and merged node sequences compared with a reference model; merge applied twice.",
+      "trusts the reference model in vf/props/c19.py; integer-microsecond inputs",
+      "DESIGN.md 3/C19")
